@@ -1,0 +1,18 @@
+//go:build verif
+
+package config
+
+// The configured message-size limit (property C09: "packets larger than the configured message size are refused"):
+// whatever the configuration file says - nothing, zero, a negative number, something absurdly large - the limit
+// the connection loop hands to the decoder lies between 1 byte and the hard maximum of 64 KiB, and it is the
+// configured value whenever that value is in range. (DecodePacket's side - nothing above the limit is read or
+// allocated for - is proved in internal/network/mqtt.)
+
+//@ verify (*Config).MaxMessageBytes pre=pre_Config post=post_MaxMessageBytes props=C09
+func pre_Config(c *Config) bool { return c != nil }
+func post_MaxMessageBytes(c *Config, res0 int64) bool {
+	if c.Limit.MessageSize > 0 && c.Limit.MessageSize <= maxMessageSize {
+		return res0 == int64(c.Limit.MessageSize)
+	}
+	return res0 == maxMessageSize && maxMessageSize == 65536
+}
